@@ -299,7 +299,9 @@ def run(module, cfg=None, workdir=None, workers=16, env=None, simulate=None, dep
         r.ok = True
     if not r.ok and not r.violated:
         brief = '\n'.join(l for l in out.split('\n') if not l.startswith(('Parsing file', 'Semantic processing', 'Linting of')))
-        raise MachineryError('TLC failed (exit %s):\n%s\n%s' % (p.returncode, r.cmd, brief[-4000:]))
+        bl = brief.split('\n')
+        first = next((k for k, l in enumerate(bl) if l.startswith('Error')), 0)
+        raise MachineryError('TLC failed (exit %s):\n%s\n%s\n...\n%s' % (p.returncode, r.cmd, '\n'.join(bl[max(0, first - 2):first + 25])[:3000], brief[-1500:]))
     if r.violated and not expect_violation:
         # the caller decides what a violated model means; keep output available
         pass
